@@ -4,6 +4,8 @@
 //@ harness: compress_suffix bounded props=C14,C03,C04,C05 timeout=200
 //@ harness: compress_sibling bounded props=C14,C03,C04,C05 timeout=200
 //@ harness: compress_high_offset bounded props=C14,C04,C05 timeout=300
+//@ harness: compress_three_labels bounded props=C14,C03,C04,C05 tier=thorough timeout=1500
+//@ harness: compress_three_pushes bounded props=C14,C03,C04,C05 tier=thorough timeout=1500
 // Name compression (push_compressed_domain / push_prefix: recursion over a LinkedList tree with `&mut Option<&mut ..>` re-borrows,
 // outside Verus).  BOUNDED: names of at most 2 one-octet labels, two pushes, symbolic base offset.
 use super::*;
@@ -116,4 +118,58 @@ fn compress_high_offset() {
     std::mem::forget(v);
     std::mem::forget(offsets);
     std::mem::forget(d1);
+}
+
+// thorough tier: [a, b, c] then [x, b, c]: label x followed by a pointer to b (offset base + 2)
+#[kani::proof]
+#[kani::unwind(8)]
+fn compress_three_labels() {
+    let base: usize = kani::any();
+    kani::assume(base <= 65535);
+    let d1 = Domain(vec![lbl(b'a'), lbl(b'b'), lbl(b'c')]);
+    let d2 = Domain(vec![lbl(b'x'), lbl(b'b'), lbl(b'c')]);
+    let mut offsets = DomainOffsets::new();
+    let mut v: Vec<u8> = Vec::new();
+    push_compressed_domain(&mut v, &d1, &mut offsets, base);
+    assert!(v.len() == 7);
+    push_compressed_domain(&mut v, &d2, &mut offsets, base);
+    assert!(v[7] == 1 && v[8] == b'x');
+    // the dictionary is keyed from the last label down: b is reachable only through c, so both must lie below the 14-bit limit
+    if base + 4 < 0x4000 {
+        assert!(v.len() == 11);
+        assert!(pointer(&v, base, 9) == 2);
+    } else {
+        // otherwise the suffix is written out again (never a pointer to an offset >= 16384)
+        assert!(v.len() == 14 && v[9] == 1 && v[10] == b'b' && v[11] == 1 && v[12] == b'c' && v[13] == 0);
+    }
+    std::mem::forget(v);
+    std::mem::forget(offsets);
+    std::mem::forget(d1);
+    std::mem::forget(d2);
+}
+
+// thorough tier: three pushes -- [a, b], [c, b], then [c, b] again: the third is a single pointer to the second name
+#[kani::proof]
+#[kani::unwind(8)]
+fn compress_three_pushes() {
+    let base: usize = kani::any();
+    kani::assume(base <= 65535);
+    let d1 = Domain(vec![lbl(b'a'), lbl(b'b')]);
+    let d2 = Domain(vec![lbl(b'c'), lbl(b'b')]);
+    let d3 = Domain(vec![lbl(b'c'), lbl(b'b')]);
+    let mut offsets = DomainOffsets::new();
+    let mut v: Vec<u8> = Vec::new();
+    push_compressed_domain(&mut v, &d1, &mut offsets, base);
+    push_compressed_domain(&mut v, &d2, &mut offsets, base);
+    let at3 = v.len();
+    push_compressed_domain(&mut v, &d3, &mut offsets, base);
+    if base + 5 < 0x4000 {
+        assert!(at3 == 9 && v.len() == 11);
+        assert!(pointer(&v, base, 9) == 5);
+    }
+    std::mem::forget(v);
+    std::mem::forget(offsets);
+    std::mem::forget(d1);
+    std::mem::forget(d2);
+    std::mem::forget(d3);
 }
